@@ -100,6 +100,7 @@ func c06(r *core.Run) {
 	r.Rule("C06/R2", "every range over a map in scope is order-insensitive: the body only updates maps, accumulates integers, deletes, or fills a slice that is sorted before any other use")
 	r.Rule("C06/R3", "RNG typestate: every generator drawn from in scope is created locally and Seed()ed before the first draw on all paths, with a seed ⊵ only Ctx.*, constants, parameters and store values")
 	r.Rule("C06/R4", "no float reaches state: float-typed values flow only into logging / telemetry / formatting")
+	r.Rule("C06/R6", "no process-local state: consensus code writes no package-level variable and nothing reachable from a Keeper field; every module's GetParams is a faithful read of the parameter store (no cache, no defaults)")
 	r.Rule("C06/R5", "no proto map<> field in a type marshalled to the store")
 	scope, rootNames, err := consensusScope(p)
 	if err != nil {
@@ -194,6 +195,11 @@ func c06(r *core.Run) {
 	}
 	r.CallSites(nCalls)
 	r.Ok("C06/R1", "scope:forbidden-sources-census", "", fmt.Sprintf("%d call sites in %d functions examined", nCalls, len(funcs)))
+	// ---- R6 no state outside the stores; parameter getters are faithful reads
+	processLocalState(r, "C06/R6", funcs)
+	for _, m := range core.CustomModules {
+		paramsGetterFaithful(r, "C06/R6", m)
+	}
 	// ---- R2 map ranges
 	nRange := 0
 	for _, fn := range funcs {
